@@ -97,7 +97,7 @@ func engCodecWorker(_ int64, _ string, _ []string, out *sx.Out) {
 			mu.Lock()
 			if cur != nil {
 				over := time.Since(started) > budget
-				if !over && time.Since(started) > 200*time.Millisecond {
+				if !over && time.Since(started) > 100*time.Millisecond {
 					runtime.ReadMemStats(&ms)
 					over = ms.HeapAlloc > memCap
 				}
@@ -146,10 +146,11 @@ func engCodecWorker(_ int64, _ string, _ []string, out *sx.Out) {
 
 // decQueue collects decode requests and runs them through child processes in chunks.
 type decQueue struct {
-	out   *sx.Out
-	reqs  []*decReq
-	chunk int
-	hangs int
+	out     *sx.Out
+	reqs    []*decReq
+	chunk   int
+	hangs   int
+	stopped bool
 }
 
 func newDecQueue(out *sx.Out) *decQueue { return &decQueue{out: out, chunk: 100000} }
@@ -170,6 +171,10 @@ func (q *decQueue) stream(v byte, bs []byte) {
 
 // flush runs all queued requests; the case lines are copied to stdout in request order.
 func (q *decQueue) flush() {
+	if q.stopped {
+		q.reqs = nil
+		return
+	}
 	if os.Getenv("HX_SANDBOX_TRACE") != "" {
 		t0 := time.Now()
 		defer func() { fmt.Fprintln(os.Stderr, "sandbox flush", time.Since(t0)) }()
@@ -184,7 +189,7 @@ func (q *decQueue) flush() {
 			// the child gave up on request [done] (time budget / memory cap) or died on it: decide on
 			// that request alone, in a fresh child with a generous budget, so that a slow machine is
 			// never mistaken for a decoder that does not terminate
-			d, l := q.runChild(reqs[done:done+1], "8000")
+			d, l := q.runChild(reqs[done:done+1], "5000")
 			if d == 1 {
 				os.Stdout.WriteString(l)
 			} else {
@@ -195,11 +200,12 @@ func (q *decQueue) flush() {
 			done++
 		}
 		reqs = reqs[done:]
-		if q.hangs > 100 { // a decoder that hangs on everything: no point in restarting for ever
-			for _, r := range reqs {
-				q.out.Case(r.hangCase())
-			}
+		if q.hangs >= 5 {
+			// the verdict is settled (each confirmed hang is a failing input of its own); every further
+			// one would cost seconds, so the remaining requests of this run are not executed
+			q.out.Comment(fmt.Sprintf("stopped after %d decodes that did not terminate; %d requests not run", q.hangs, len(reqs)))
 			q.out.Flush()
+			q.stopped = true
 			return
 		}
 	}
